@@ -190,7 +190,9 @@ class Program:
             else:
                 self.consts.setdefault(self._const_key(f.name), []).append(f)
         self.enums = dict(BUILTIN_ENUMS)
+        self.assoc_output = {}
         self._scan_enums()
+        self._scan_assoc_outputs()
         self._const_cache = {}
         self._src_cache = {}
 
@@ -228,6 +230,42 @@ class Program:
                             if mm:
                                 vs.append(mm.group(1))
                         self.enums[m.group(1)] = vs
+
+    def _scan_assoc_outputs(self):
+        """trait name -> the single `type Output` all its impls in the repository use (projections resolved by fixpoint)"""
+        found = {}
+        for root in ("src", "fpdec-core/src"):
+            d = os.path.join(self.repo, root)
+            for dp, _, fns in os.walk(d):
+                for fn in fns:
+                    if not fn.endswith(".rs"):
+                        continue
+                    txt = open(os.path.join(dp, fn)).read()
+                    for m in re.finditer(r"impl(?:<[^>]*>)?\s+\$?(\w+)(?:<[^{;]*?>)?\s+for\s+([&\w$' ]+?)\s*(?:where[^{]*)?\{\s*type Output = ([^;]+);", txt, re.S):
+                        trait, selfty, out = m.group(1), m.group(2).strip(), m.group(3).strip()
+                        if trait == "imp":
+                            continue
+                        if out == "Self":
+                            out = selfty.lstrip("&").strip()
+                        found.setdefault(trait, set()).add(out)
+        for trait, outs in found.items():
+            concrete = {o for o in outs if " as " not in o and "$" not in o}
+            if len(concrete) == 1:
+                self.assoc_output[trait] = concrete.pop()
+
+    def resolve_projection(self, ty):
+        """`<A as Trait<B>>::Output` -> concrete type when the table knows the trait"""
+        prev = None
+        while prev != ty:
+            prev = ty
+            m = re.search(r"<((?:[^<>]|<(?:[^<>]|<[^<>]*>)*>)*?) as (\w+)(?:<(?:[^<>]|<[^<>]*>)*>)?>::Output", ty)
+            if not m:
+                break
+            out = self.assoc_output.get(m.group(2))
+            if out is None:
+                break
+            ty = ty[:m.start()] + out + ty[m.end():]
+        return ty
 
     def source_line(self, path, line):
         key = path
@@ -516,8 +554,9 @@ class Outcome:
 
 
 class Fork(Exception):
-    def __init__(self, alts):
+    def __init__(self, alts, check=True):
         self.alts = alts      # list of (cond, fixup(state) or None)
+        self.check = check    # False: do not prune alternatives by a feasibility query
 
 
 # --------------------------------------------------------------------------
@@ -889,7 +928,7 @@ class Executor:
                 elif p[0] in ("index", "cindex"):
                     m = re.match(r"^\[(.*); .*\]$", norm_type(ty))
                     ty = m.group(1) if m else "?"
-            return norm_type(apply_subst(ty, fr.subst))
+            return self.prog.resolve_projection(norm_type(apply_subst(ty, fr.subst)))
         if k == "const":
             txt = op[1]
             m = re.fullmatch(r"-?\d+_(\w+)", txt)
@@ -1481,7 +1520,10 @@ class Executor:
             return out
         out = []
         for cond, fix in alts:
-            if not self.feasible(st, cond):
+            if isinstance(cond, bool):
+                if not cond:
+                    continue
+            elif f.check and not self.feasible(st, cond):
                 continue
             s2 = st.copy()
             try:
@@ -1646,7 +1688,7 @@ class Executor:
 
     def do_call(self, st, fr, t):
         _, dest, callee, argops, target = t
-        callee_s = apply_subst(callee, fr.subst)
+        callee_s = self.prog.resolve_projection(norm_type(apply_subst(callee, fr.subst))) if "::Output" in callee else apply_subst(callee, fr.subst)
         args = [self.eval_operand(st, fr, o) for o in argops]
         last = Program._last_seg(re.sub(r"::<[^<>]*(?:<[^<>]*(?:<[^<>]*>[^<>]*)*>[^<>]*)*>$", "", callee_s))
         last = re.sub(r"::<.*>$", "", last)
@@ -1739,7 +1781,7 @@ class Executor:
                     break
             if not ok:
                 continue
-            if rty is not None and rty != "?" and not _has_generic(f.ret) and "impl " not in f.ret:
+            if rty is not None and rty != "?" and not _has_generic(f.ret) and "impl " not in f.ret and not (" as " in rty and ">::" in rty):
                 if not unify(f.ret, rty, dict(subst)):
                     if not ("<" in f.ret and " as " in f.ret):     # projections like <T as Trait>::Output
                         continue
